@@ -203,6 +203,14 @@ def circuit_is_isomorphic(circuit1, circuit2):
     :return: True if 2 circuits is isomorphic, False otherwise.
     :rtype: Boolean
     """
+    # like the other comparison methods, work on unwrapped, identity-free copies (the inputs stay untouched)
+    circuit1 = circuit1.copy()
+    circuit1.unwrap_nodes()
+    circuit1.remove_identity()
+    circuit2 = circuit2.copy()
+    circuit2.unwrap_nodes()
+    circuit2.remove_identity()
+
     add_control_target_to_dag(circuit1)
     add_control_target_to_dag(circuit2)
 
